@@ -38,7 +38,7 @@
 #include "utils/Utils.h"
 #include "utils/VByte.h"
 
-extern "C" size_t libcsd_verif_memalloc = 32768;
+extern "C" int libcsd_verif_memalloc = 32768;
 
 using namespace cds_static;
 
